@@ -126,7 +126,7 @@ class P_pdffit(StructureParser):
                 emsg = "%d: file is not in PDFfit format" % p_nl
                 raise StructureFormatError(emsg)
             # Load data from atom entries.
-            p_natoms = reduce(lambda x, y: x * y, stru.pdffit["ncell"])
+            p_natoms = reduce(lambda x, y: x * y, stru.pdffit["ncell"], 1)
             # we are now inside data block
             for line in ilines:
                 p_nl += 1
@@ -173,7 +173,7 @@ class P_pdffit(StructureParser):
                 superlattice = Lattice(*superlatpars)
                 stru.placeInLattice(superlattice)
                 stru.pdffit["ncell"] = [1, 1, 1, p_natoms]
-        except (ValueError, IndexError):
+        except (ValueError, IndexError, StopIteration, ZeroDivisionError):
             emsg = "%d: file is not in PDFfit format" % p_nl
             exc_type, exc_value, exc_traceback = sys.exc_info()
             e = StructureFormatError(emsg)
